@@ -860,7 +860,7 @@ class Emitter:
         N = {t for t in self.alphabet if exits.get(t) == {"N"}}
         ens = []
         if self.c07 is not None and s is self.c07[0]["loop"]:
-            ens.append(self.c07[1] % (r, r) + ",   // [C07] the operator loop is left only on a token that is no operator or binds looser than min_bp")
+            ens.append(self.c07[1] % r + ",   // [C07] the operator loop is left only on a token that is no operator or binds looser than min_bp")
         if P:
             ens.append("%s ==> %s.pos > p_%d,   // [C03]" % (tokset("c_%d" % k, P, self.alphabet), r, k))
         if N:
@@ -906,7 +906,7 @@ class Emitter:
         else:
             ens = macro_clauses("STEP", [fin, o])
         if self.c07 is not None:
-            ens.append((self.c07[1] % (fin, fin), "[C07] on return the next token is not an operator that binds at least as tight as min_bp"))
+            ens.append((self.c07[1] % fin, "[C07] on return the next token is not an operator that binds at least as tight as min_bp"))
         if P:
             ens.append(("%s ==> %s.pos > %s.pos" % (tokset("%s.current" % o, P, self.alphabet), fin, o), "[C03] progress on these tokens (termination of callers' loops)"))
         if N:
@@ -938,7 +938,7 @@ class Emitter:
 # ----------------------------------------------------------------------------------------------
 # C07: binding discipline of emitted Pratt functions against a table read from the grammar text
 # ----------------------------------------------------------------------------------------------
-def c07_prepare(ix, f, body, rule, tabs, right_names):
+def c07_prepare(ix, f, body, rule, tabs, right_names, entry_body=None):
     """-> (info dict, None) or (None, reason).  info: name, arms [(loop arm, branch index, lbp, rbp,
     rassoc, tokens, if-node, rec-node or None)], prefix [(rec node, branch index, power)], nbranches."""
     import pratt
@@ -999,13 +999,21 @@ def c07_prepare(ix, f, body, rule, tabs, right_names):
             return None, "an operator token starts two branches"
         seen |= a.toks
         rassoc = br[bi]["kind"] == "leftright" and bool(a.toks & right_names)
-        lbp, rbp = pratt.powers(n, bi, br[bi]["kind"], rassoc)
         ifs = [s for s in a.body if s.kind == "if" and re.fullmatch(r"\d+\s*\S{1,2}\s*min_bp", s.cond.strip())]
         recs = [s for s in a.body if s.kind == "rec"]
         if len(ifs) != 1 or a.body[0] is not ifs[0]:
             return None, "unexpected shape: operator arm does not start with the binding-power test"
         if br[bi]["kind"] == "leftright" and len(recs) != 1:
             return None, "unexpected shape: infix arm without exactly one recursive call"
+        # the NUMBERS are the emitted ones (a renumbering that keeps every comparison is harmless); what the
+        # grammar text dictates is the outcome of the comparisons between them (lemma_c07_table_X)
+        lbp = int(re.match(r"\d+", ifs[0].cond.strip()).group(0))
+        rbp = None
+        if recs:
+            lit = recs[0].args[2].strip() if len(recs[0].args) >= 4 else ""
+            if not lit.isdigit():
+                return None, "unexpected shape: the right operand is parsed without a literal binding power"
+            rbp = int(lit)
         out_arms.append(dict(arm=a, branch=bi, lbp=lbp, rbp=rbp, rassoc=rassoc, toks=sorted(a.toks), ifn=ifs[0], rec=recs[0] if recs else None, kind=br[bi]["kind"]))
     # prefix branches: recursive calls outside the operator loop, in order
     pre = []
@@ -1029,8 +1037,38 @@ def c07_prepare(ix, f, body, rule, tabs, right_names):
     right_idx = [i for i, b in enumerate(br) if b["kind"] == "right"]
     if len(right_idx) != len(pre):
         return None, "grammar text has %d prefix branches, emitted code has %d recursive calls outside the operator loop" % (len(right_idx), len(pre))
-    prefix = [(s, bi, 2 * (n - bi)) for s, bi in zip(pre, right_idx)]
-    return dict(rule=rule, arms=out_arms, prefix=prefix, n=n, loop=lp), None
+    prefix = []
+    for s, bi in zip(pre, right_idx):
+        lit = s.args[2].strip() if len(s.args) >= 4 else ""
+        if not lit.isdigit():
+            return None, "unexpected shape: the operand of a prefix operator is parsed without a literal binding power"
+        prefix.append((s, bi, int(lit)))
+    # the minimum passed by the rule function itself (`rec(self, diags, E, lhs)`)
+    entry = None
+    if entry_body is not None:
+        er = []
+
+        def find_entry(stmts):
+            for s in stmts:
+                if s.kind == "rec":
+                    er.append(s)
+                elif s.kind == "loop":
+                    find_entry(s.body)
+                elif s.kind == "match":
+                    for a in s.arms:
+                        find_entry(a.body)
+                elif s.kind == "if":
+                    find_entry(s.then)
+                    if s.els:
+                        find_entry(s.els)
+        find_entry(entry_body)
+        if len(er) == 1 and len(er[0].args) >= 4 and er[0].args[2].strip().isdigit():
+            entry = int(er[0].args[2].strip())
+    # `if C < min_bp { break }`: an operator is absorbed iff C >= min_bp; with `<=` throughout, iff C > min_bp
+    # (any other comparison is held against the `<` reading by the assertion behind the test)
+    ops = set(re.fullmatch(r"\d+\s*(\S{1,2})\s*min_bp", a["ifn"].cond.strip()).group(1) for a in out_arms)
+    strict = ops == {"<="}
+    return dict(rule=rule, arms=out_arms, prefix=prefix, n=n, loop=lp, entry=entry, strict=strict), None
 
 
 def c07_emit(ix, ed, f, info, alphabet):
@@ -1038,17 +1076,20 @@ def c07_emit(ix, ed, f, info, alphabet):
     st = ix.st
     rule = info["rule"]
     fn = "c07_lbp_%s" % rule
+    strict = info.get("strict", False)
+    ge = ">" if strict else ">="        # "binds at least as tight as the minimum", as the emitted test reads it
+    lt = "<=" if strict else "<"
     cases = []
     for a in info["arms"]:
         for t in a["toks"]:
             cases.append("Token::%s => %dint," % (t, a["lbp"]))
-    spec = "// [C07] left binding power of the operator tokens of rule `%s`, from the grammar text (branch order, `right` declarations)\n" % rule
-    spec += "#[verifier::opaque]\npub open spec fn %s(t: Token) -> int { match t { %s _ => 0int } }\n" % (fn, " ".join(cases))
+    spec = "// [C07] left binding power of the operator tokens of rule `%s` (the emitted numbers; -1: no operator of this rule)\n" % rule
+    spec += "#[verifier::opaque]\npub open spec fn %s(t: Token) -> int { match t { %s _ => -1int } }\n" % (fn, " ".join(cases))
     # the table, one implication per operator token (the function itself is opaque: a rule with a dozen
     # operator arms otherwise makes the solver case-split on the whole table at every recursive call)
     optoks = [(t, a["lbp"]) for a in info["arms"] for t in a["toks"]]
     imps = ["(t == Token::%s ==> %s(t) == %d)" % (t, fn, l) for t, l in optoks]
-    imps.append("(%s ==> %s(t) == 0)" % (" && ".join("t != Token::%s" % t for t, _ in optoks) or "true", fn))
+    imps.append("(%s ==> %s(t) == -1)" % (" && ".join("t != Token::%s" % t for t, _ in optoks) or "true", fn))
     spec += "pub proof fn lemma_c07_lbp_%s(t: Token)\n    ensures\n        %s\n{ reveal(%s); }\n" % (rule, "\n        ".join(i + ",   // [C07]" for i in imps), fn)
 
     def breaks(stmts, acc):
@@ -1071,29 +1112,30 @@ def c07_emit(ix, ed, f, info, alphabet):
         else:
             ed.insert(st[b.i0].s, call + " ")
     # the table satisfies the property's inequalities
+    # What the GRAMMAR TEXT dictates (branch order, `right` declarations) are the outcomes of the comparisons
+    # between the emitted numbers; any numbering with these outcomes parses alike, any other does not.
     facts = []
     for a in info["arms"]:
         if a["kind"] != "leftright":
             continue
         for b in info["arms"]:
             want = "true" if (b["branch"] < a["branch"] or (b["branch"] == a["branch"] and a["rassoc"])) else "false"
-            facts.append("((%d >= %d) == %s)" % (b["lbp"], a["rbp"], want))
+            facts.append("((%d %s %d) == %s)" % (b["lbp"], ge, a["rbp"], want))
     for (s, bi, pw) in info["prefix"]:
         for b in info["arms"]:
             want = "true" if b["branch"] < bi else "false"
-            facts.append("((%d >= %d) == %s)" % (b["lbp"], pw, want))
+            facts.append("((%d %s %d) == %s)" % (b["lbp"], ge, pw, want))
+    if info.get("entry") is not None:
+        # the rule function itself starts with a minimum that every operator of the rule passes
+        for b in info["arms"]:
+            facts.append("(%d %s %d)" % (b["lbp"], ge, info["entry"]))
     spec += ("// [C07] an operator is absorbed into a right operand exactly if it comes from an earlier (tighter) branch, or from the\n"
-             "// same branch when that branch is right-associative; a prefix operator's operand absorbs exactly the tighter operators\n"
+             "// same branch when that branch is right-associative; a prefix operator's operand absorbs exactly the tighter operators;\n"
+             "// at the top level every operator is absorbed\n"
              "pub proof fn lemma_c07_table_%s()\n    ensures %s,   // [C07]\n{ }\n" % (rule, " && ".join(facts) if facts else "true"))
     for a in info["arms"]:
-        ed.insert(st[a["ifn"].i1].e, "\n                        assert(%d >= min_bp);   // [C07] only operators binding at least as tight as the caller's minimum are absorbed" % a["lbp"])
-        if a["rec"] is not None:
-            lit = a["rec"].args[2] if len(a["rec"].args) >= 4 else "?"
-            ed.insert(st[a["rec"].i0].s, "assert(%s == %d);   // [C07] right binding power of this branch per the grammar's precedence table\n                        " % (lit, a["rbp"]))
-    for (s, bi, pw) in info["prefix"]:
-        lit = s.args[2] if len(s.args) >= 4 else "?"
-        ed.insert(st[s.i0].s, "assert(%s == %d);   // [C07] operand of a prefix operator: binding power of its branch\n                    " % (lit, pw))
-    clause = "(%s(%%s.current) == 0 || %s(%%s.current) < min_bp)" % (fn, fn)
+        ed.insert(st[a["ifn"].i1].e, "\n                        assert(%s(parser.current) %s min_bp) by { lemma_c07_lbp_%s(parser.current); }   // [C07] only operators binding at least as tight as the caller's minimum are absorbed" % (fn, ge, rule))
+    clause = "(%s(%%s.current) %s min_bp)" % (fn, lt)
     return spec, clause
 
 
@@ -1149,7 +1191,7 @@ def annotate(ix, ed, report, skeleton_only=False):
             continue
         if f.parent is not None and tabs is not None and not skeleton_only:
             rule = key[len("rule_"):-len("::rec")]
-            info, why = c07_prepare(ix, f, body, rule, tabs, tabs.get("_right", set()))
+            info, why = c07_prepare(ix, f, body, rule, tabs, tabs.get("_right", set()), fns.get("rule_" + rule))
             if info is None:
                 c07rep[rule] = {"covered": False, "reason": why}
             elif "missing_bp" in info:
